@@ -82,7 +82,24 @@ type mail struct {
 	notes  []note
 }
 
+// H is a 128-bit hash of a happens-before prefix (an event together with all its causes).
+type H struct{ A, B uint64 }
+
+func mix64(x uint64) uint64 {
+	x += 0x9e3779b97f4a7c15
+	x = (x ^ (x >> 30)) * 0xbf58476d1ce4e5b9
+	x = (x ^ (x >> 27)) * 0x94d049bb133111eb
+	return x ^ (x >> 31)
+}
+
+func (h H) mix(x uint64) H {
+	return H{mix64(h.A ^ mix64(x)), mix64(h.B + mix64(x^0x5851f42d4c957f2d))}
+}
+
+func (h H) mixH(o H) H { return h.mix(o.A).mix(o.B) }
+
 type thread struct {
+	h       H // hash of this thread's last event (with its causal past)
 	id      int
 	name    string
 	lib     bool
@@ -105,14 +122,15 @@ const (
 
 // Timer is the scheduler-side representation of a virtual timer.
 type Timer struct {
-	when  int64
-	seq   int
-	state int
-	lib   bool
-	C     chan time.Time
-	cb    *thread
-	where string
+	when   int64
+	seq    int
+	state  int
+	lib    bool
+	C      chan time.Time
+	cb     *thread
+	where  string
 	period int64
+	h      H
 }
 
 // Decision is one recorded choice point of an execution.
@@ -130,6 +148,10 @@ type Choice struct {
 }
 
 type Options struct {
+	// OnPoint, if set, is called at every recorded decision point with the fingerprint of the
+	// current state (the happens-before hash of everything executed so far); returning false
+	// abandons the execution (Result.Pruned).
+	OnPoint    func(idx int, fp H) bool
 	Prefix     []Choice
 	Horizon    int   // max scheduler steps (0 = default)
 	Epoch      int64 // unix nanos at start
@@ -151,6 +173,7 @@ type Result struct {
 	Threads    int
 	Listing    []string // verbose step listing
 	Switches   int      // context switches between different threads
+	Pruned     bool
 }
 
 type lockSt struct {
@@ -176,7 +199,11 @@ type exec struct {
 	failMsg  string
 	panicMsg string
 	lastRun  *thread
+	subject  *thread // thread whose sub-decision is being taken
+	firedH   H       // commutative sum of the causal hashes of timer firings
 	draws    int
+	objH     map[uintptr]H
+	noteOrd  uint64
 }
 
 // ex is the current execution; nil when no execution is active (pass-through mode).
@@ -202,7 +229,7 @@ func Execute(o Options, main func()) *Result {
 	if o.Epoch == 0 {
 		o.Epoch = DefaultEpoch
 	}
-	e := &exec{o: o, locks: map[unsafe.Pointer]*lockSt{}, res: &Result{}, now: o.Epoch}
+	e := &exec{o: o, locks: map[unsafe.Pointer]*lockSt{}, res: &Result{}, now: o.Epoch, objH: map[uintptr]H{}}
 	startWatchdog()
 	setEx(e)
 	t := e.newThread("main", false)
@@ -398,8 +425,21 @@ func (e *exec) fire(tm *Timer) {
 	if e.o.Verbose {
 		e.res.Listing = append(e.res.Listing, "t="+strconv.FormatInt(e.now-e.o.Epoch, 10)+" fire timer#"+strconv.Itoa(tm.seq)+" ("+tm.where+")")
 	}
+	h := tm.h.mix(0xf12e).mix(uint64(tm.when))
+	k1 := uintptr(unsafe.Pointer(tm))
+	h = h.mixH(e.objH[k1])
+	var k2 uintptr
+	if tm.C != nil {
+		k2 = chanKey(tm.C)
+		h = h.mixH(e.objH[k2])
+		e.objH[k2] = h
+	}
+	e.objH[k1] = h
+	e.firedH.A += mix64(h.A)
+	e.firedH.B += mix64(h.B ^ 0x77)
 	if tm.cb != nil {
 		tm.cb.fired = true
+		tm.cb.h = tm.cb.h.mixH(h)
 		return
 	}
 	select {
@@ -419,6 +459,19 @@ func (e *exec) pick(n int, costly bool, kind string, desc func() string) int {
 			return -1
 		}
 		c = p.C
+	}
+	if e.o.OnPoint != nil && e.pos >= len(e.o.Prefix) {
+		fp := e.fingerprint()
+		if kind != "sched" {
+			// a sub-decision of the thread about to run (ready select case, data choice): the state is
+			// the one of the scheduling decision just taken plus "this thread was chosen"
+			fp = fp.mix(0x5b).mixH(e.subject.h).mix(uint64(e.subject.mail.kind))
+		}
+		if !e.o.OnPoint(e.pos, fp) {
+			e.abort = "pruned"
+			e.res.Pruned = true
+			return -1
+		}
 	}
 	e.pos++
 	d := Decision{N: n, Chosen: c, Costly: costly, Kind: kind}
@@ -523,12 +576,104 @@ func unsupported(what string) {
 	}
 }
 
+// fingerprint identifies the current state up to reordering of independent events: the sum of
+// the scrambled per-thread causal hashes, the thread that holds the baton, and the clock.
+//
+//go:norace
+func (e *exec) fingerprint() H {
+	var f H
+	for _, t := range e.threads {
+		x := t.h
+		if t.done {
+			x = x.mix(1)
+		}
+		f.A += mix64(x.A)
+		f.B += mix64(x.B ^ 0x1234567)
+	}
+	f = f.mixH(e.firedH)
+	if e.cur != nil {
+		f = f.mixH(e.cur.h)
+	}
+	return f.mix(uint64(e.now)).mix(uint64(len(e.threads)))
+}
+
+func chanKey(ch any) uintptr {
+	v := reflect.ValueOf(ch)
+	if !v.IsValid() || v.IsNil() {
+		return 0
+	}
+	return v.Pointer()
+}
+
+// ctxKey is the single object all context operations are taken to touch (cancellation of one
+// context reaches the Done channels of its descendants, which the scheduler cannot enumerate).
+const ctxKey = ^uintptr(0)
+const miscKey = ^uintptr(1)
+
+func isDoneChan(ch any) bool {
+	v := reflect.ValueOf(ch)
+	return v.IsValid() && v.Kind() == reflect.Chan && v.Type().ChanDir() == reflect.RecvDir && v.Type().Elem().Size() == 0
+}
+
+// event computes the causal hash of the operation t is about to perform and chains it into every
+// object the operation touches.
+//
+//go:norace
+func (e *exec) event(t *thread, sel int) {
+	m := &t.mail
+	var objs [8]uintptr
+	n := 0
+	add := func(k uintptr) {
+		if k != 0 && n < len(objs) {
+			objs[n] = k
+			n++
+		}
+	}
+	switch m.kind {
+	case OpLock, OpRLock, OpWGWait, OpCondWait:
+		add(uintptr(m.obj))
+	case OpRecv, OpSend:
+		add(chanKey(m.ch))
+		if isDoneChan(m.ch) {
+			add(ctxKey)
+		}
+	case OpSelect:
+		for _, c := range m.cases {
+			add(chanKey(c.Ch))
+			if isDoneChan(c.Ch) {
+				add(ctxKey)
+			}
+		}
+	case OpPoint:
+		switch {
+		case m.obj != nil:
+			add(uintptr(m.obj))
+		case m.tag == "ctx.Err" || m.tag == "cancel" || m.tag == "ctx.Cause":
+			add(ctxKey)
+		case m.ch != nil:
+			add(chanKey(m.ch))
+		default:
+			add(miscKey)
+		}
+	}
+	h := t.h.mix(uint64(m.kind)).mix(uint64(int64(sel))).mix(uint64(m.n))
+	for i := 0; i < n; i++ {
+		h = h.mixH(e.objH[objs[i]])
+	}
+	t.h = h
+	for i := 0; i < n; i++ {
+		e.objH[objs[i]] = h
+	}
+	e.noteOrd = 0
+}
+
 // runThread hands the baton to t and waits for it to come back. Returns false if the execution must stop.
 //
 //go:norace
 func (e *exec) runThread(t *thread) bool {
 	m := &t.mail
 	sel := 0
+	e.subject = t
 	switch m.kind {
 	case OpLock:
 		st := e.locks[m.obj]
@@ -557,7 +702,9 @@ func (e *exec) runThread(t *thread) bool {
 		case 1:
 			sel = ready[0]
 		default:
-			k := e.pick(len(ready), false, "select", func() string { return "T" + strconv.Itoa(t.id) + " select among " + strconv.Itoa(len(ready)) + " ready cases" })
+			k := e.pick(len(ready), false, "select", func() string {
+				return "T" + strconv.Itoa(t.id) + " select among " + strconv.Itoa(len(ready)) + " ready cases"
+			})
 			if k < 0 {
 				return false
 			}
@@ -575,6 +722,7 @@ func (e *exec) runThread(t *thread) bool {
 		condConsume(m.obj, m.n)
 	}
 	m.sel = sel
+	e.event(t, sel)
 	if e.lastRun != nil && e.lastRun != t {
 		e.res.Switches++
 	}
@@ -599,10 +747,16 @@ func (e *exec) runThread(t *thread) bool {
 				st.readers--
 			}
 		case noteThread:
+			e.noteOrd++
+			n.t.h = t.h.mix(0x7431).mix(e.noteOrd)
 			e.register(n.t)
 		case noteTimer:
+			e.noteOrd++
 			e.seq++
 			n.tm.seq = e.seq
+			if n.tm.h == (H{}) {
+				n.tm.h = t.h.mix(0x7132).mix(e.noteOrd)
+			}
 			e.timers = append(e.timers, n.tm)
 		}
 	}
@@ -637,7 +791,7 @@ func (e *exec) finish() {
 	r.Panic = e.panicMsg
 	r.Fail = e.failMsg
 	r.Threads = len(e.threads)
-	if e.abort != "" && r.Diverged == "" {
+	if e.abort != "" && r.Diverged == "" && !r.Pruned {
 		r.Diverged = e.abort
 	}
 }
@@ -647,7 +801,7 @@ func (e *exec) finish() {
 //go:norace
 func (e *exec) analyse() {
 	r := e.res
-	if e.panicMsg != "" || e.failMsg != "" || e.abort != "" || r.HorizonHit {
+	if e.panicMsg != "" || e.failMsg != "" || e.abort != "" || r.HorizonHit || r.Pruned {
 		return
 	}
 	if !e.mainDone || e.userCnt > 0 {
@@ -748,6 +902,10 @@ func addNote(n note) {
 // Point is an always-enabled scheduling point.
 func Point(tag string) { gate(OpPoint, nil, nil, nil, false, 0, tag) }
 
+// PointObj is an always-enabled scheduling point on a known object (conflicts only with other
+// operations on the same object).
+func PointObj(tag string, obj unsafe.Pointer) { gate(OpPoint, obj, nil, nil, false, 0, tag) }
+
 // LockPoint blocks (in the scheduler's sense) until the lock identified by obj is free.
 func LockPoint(obj unsafe.Pointer)   { gate(OpLock, obj, nil, nil, false, 0, "") }
 func RLockPoint(obj unsafe.Pointer)  { gate(OpRLock, obj, nil, nil, false, 0, "") }
@@ -811,7 +969,7 @@ func Send[T any](c chan<- T, v T) {
 }
 
 func Close[T any](c chan<- T) {
-	Point("close")
+	gate(OpPoint, nil, c, nil, false, 0, "close")
 	close(c)
 }
 
@@ -909,7 +1067,7 @@ func AfterFunc(d int64, lib bool, fn func()) *Timer {
 //
 //go:norace
 func (tm *Timer) Stop() bool {
-	Point("timer.Stop")
+	PointObj("timer.Stop", unsafe.Pointer(tm))
 	if tm.state == tmPending {
 		tm.state = tmStopped
 		return true
@@ -921,7 +1079,7 @@ func (tm *Timer) Stop() bool {
 //
 //go:norace
 func (tm *Timer) Reset(d int64) bool {
-	Point("timer.Reset")
+	PointObj("timer.Reset", unsafe.Pointer(tm))
 	was := tm.state == tmPending
 	if tm.cb != nil {
 		unsupported("Reset on an AfterFunc timer")
